@@ -3,6 +3,8 @@
 #pragma once
 #include "vpch.h"
 #include "vcommon.h"
+#include <hgraph/types/metadata/value_plan_factory.h>
+#include <hgraph/types/value/value_builder.h>
 
 namespace tsshapes
 {
@@ -212,8 +214,23 @@ namespace tsshapes
     {
         using S = PairB;
         static constexpr const char *name = "tsb";
-        static void apply(const Out<S> &out, const std::string &op, DateTime)
+        // "a=<v>" / "b=<v>" write one field; "W<x>:<y>" writes the WHOLE bundle value in one copy ('-' leaves a field out)
+        static void apply(const Out<S> &out, const std::string &op, DateTime now)
         {
+            if (op[0] == 'W')
+            {
+                const auto colon = op.find(':');
+                const std::string xa = op.substr(1, colon - 1), xb = op.substr(colon + 1);
+                const TSOutputView &ov = out.base();
+                const auto *schema = ov.schema();
+                BundleBuilder builder{ValuePlanFactory::instance().type_for(schema->value_schema)};
+                if (xa != "-") { Value v{Int{std::stol(xa)}}; builder.set("a", v.view()); }
+                if (xb != "-") { Value v{Int{std::stol(xb)}}; builder.set("b", v.view()); }
+                Value whole = builder.build();
+                auto mutation = ov.begin_mutation(now);
+                (void)mutation.copy_value_from(whole.view());
+                return;
+            }
             const Int v{std::stol(op.substr(2))};
             if (op[0] == 'a') out.template field<"a">().set(v); else out.template field<"b">().set(v);
         }
